@@ -18,14 +18,15 @@ from .common import Part, Q, Report, approx_equal, finish, pmap, quiet, solve, t
 from .oblig import prove_equal, prove_valid, reach
 
 PID = "C16"
-DT = 0.1
+DT = 0.1  # the adapter's fixed prediction step (by-hand runs always use this)
+MAX_DT_CFG = 0.25  # configured maximum step of the estimators under test: deliberately NOT 0.1
 
 
-def make_adapter(p, calmap, pnoise, snoise, k, cse=True):
+def make_adapter(p, calmap, pnoise, snoise, k, cse=True, max_dt=0.1):
     from formak import python
 
     st = p.symtab()
-    cfg = python.Config(common_subexpression_elimination=cse, innovation_filtering=k)
+    cfg = python.Config(common_subexpression_elimination=cse, innovation_filtering=k, max_dt_sec=max_dt)
     return python.SklearnEKFAdapter.Create(p.ui_model(), {st[c]: pnoise[c] for c in p.control}, p.sympy_sensors(), {key: dict(snoise[key]) for key in p.sensors}, calmap, config=cfg)
 
 
@@ -67,14 +68,16 @@ def by_hand(ekf, p, Xrows, dt):
     return out, trace
 
 
-def float_run(p, e, k, rows):
-    """Real adapter and by-hand real filter on floats."""
+def float_run(p, e, k, rows, int_matrix=False):
+    """Real adapter and by-hand real filter on floats (int_matrix: the data matrix is handed over with an integer dtype)."""
 
     def go():
         with quiet():
             pn, sn = pyh.noise_vals_from_env(p, e)
-            ad = make_adapter(p, pyh.float_calibration_map(p, e), {c: float(pn[c]) for c in p.control}, {key: {r: float(sn[key][r]) for r in p.sensors[key]} for key in p.sensors}, k)
+            ad = make_adapter(p, pyh.float_calibration_map(p, e), {c: float(pn[c]) for c in p.control}, {key: {r: float(sn[key][r]) for r in p.sensors[key]} for key in p.sensors}, k, max_dt=MAX_DT_CFG)
             Xf = np.array([[float(e[f"X_{r}_{j}"]) for j in range(width(p))] for r in range(rows)])
+            if int_matrix:
+                Xf = Xf.astype(np.int64)
             params0 = ad.get_params()
             tr = np.array(ad.transform(Xf), dtype=float)
             tr2 = np.array(ad.transform(Xf), dtype=float)
@@ -82,7 +85,7 @@ def float_run(p, e, k, rows):
             sc = ad.score(Xf, explain_score=True)
             params1 = ad.get_params()
             ekf = ad.export_python()
-            hand, _ = by_hand(ekf, p, [list(r) for r in Xf], DT)
+            hand, _ = by_hand(ekf, p, [[float(v) for v in r] for r in Xf], DT)
             return {"transform": tr, "transform2": tr2, "mahalanobis": mh, "score": float(sc[0]), "hand": np.array(hand, dtype=float), "params_same": all(params0[k_] is params1[k_] for k_ in params0)}
 
     return pyh.gate_guard(go)
@@ -94,10 +97,11 @@ def float_run_second(p, e, rows):
     def go():
         with quiet():
             pn, sn = pyh.noise_vals_from_env(p, e)
-            ad = make_adapter(p, pyh.float_calibration_map(p, e), {c: float(pn[c]) for c in p.control}, {key: {r: float(sn[key][r]) for r in p.sensors[key]} for key in p.sensors}, None)
+            ad = make_adapter(p, pyh.float_calibration_map(p, e), {c: float(pn[c]) for c in p.control}, {key: {r: float(sn[key][r]) for r in p.sensors[key]} for key in p.sensors}, None, max_dt=MAX_DT_CFG)
             Xa = np.array([[float(e.get(f"X_{r}_{j}", 0.25)) for j in range(width(p))] for r in range(rows)])
             Xb = np.array([[float(e.get(f"Xb_{r}_{j}", -0.5)) for j in range(width(p))] for r in range(rows)])
             ad.transform(Xa)
+            ad.set_params(common_subexpression_elimination=False, max_dt_sec=0.5, innovation_filtering=float(e.get("k2", 0.5)))
             trb = np.array(ad.transform(Xb), dtype=float)
             hand, _ = by_hand(ad.export_python(), p, [list(r) for r in Xb], DT)
             return {"transform_b": trb, "hand_b": np.array(hand, dtype=float)}
@@ -145,8 +149,16 @@ def task(p, k, rows, tier, seed):
         return out
 
     def seeded_envs_b(rng, cnt):
-        out = seeded_envs(rng, cnt)
+        out = seeded_envs(rng, max(cnt, 12))
+        for i, e in enumerate(out):
+            e["k2"] = rng.choice([0.125, 0.5, 2.0])
+            far = i % 2 == 0  # readings far from the prediction: discarded once filtering is switched on
+            for r in range(rows):
+                for j in range(W):
+                    e[f"Xb_{r}_{j}"] = (rng.choice([-9.0, 7.0, 11.0]) if far and j >= len(p.control) and rng.random() < 0.6 else rng.randint(-12, 12) / 8.0)
+        return out
         for e in out:
+            e["k2"] = rng.choice([0.125, 0.5, 2.0])
             for r in range(rows):
                 for j in range(W):
                     e[f"Xb_{r}_{j}"] = rng.randint(-12, 12) / 8.0
@@ -170,10 +182,26 @@ def task(p, k, rows, tier, seed):
             return part.d
         conc.append(e)
 
+    # an integer-typed data matrix is a valid data matrix (dtype is outside what the symbolic run can represent: concrete)
+    e_int = seeded_envs(random.Random(seed + 77), 1)[0]
+    for r in range(rows):
+        for j in range(W):
+            e_int[f"X_{r}_{j}"] = float(random.Random(seed + 13 * r + j).randint(-2, 2))
+    try:
+        got_i = float_run(p, e_int, k, rows, int_matrix=True)
+        probs = concrete_problems(p, e_int, got_i)
+        part.record(Q("sat" if probs else "unsat", None, 0.0, ""), f"{key_base}: integer-typed data matrix gives the by-hand NIS (concrete)")
+        if probs:
+            path = write_replay(PID, {"key": key_base + "/int-matrix", "info": dict(info, int_matrix=True), "inputs": e_int, "problems": probs})
+            part.violation(key_base + "/int-matrix", f"adapter outputs for an integer-typed data matrix differ from the by-hand filter: {probs[0]}", path)
+            return part.d
+    except pyh.GateRejected:
+        pass
+
     def harness():
         with installed(), quiet():
             calmap = pyh.sym_calibration_map(p, env)
-            ad = make_adapter(p, calmap, {c: SymReal(pn[c]) for c in p.control}, {key: {r: SymReal(sn[key][r]) for r in p.sensors[key]} for key in p.sensors}, SymReal(z3.Real("k")) if k == "sym" else k)
+            ad = make_adapter(p, calmap, {c: SymReal(pn[c]) for c in p.control}, {key: {r: SymReal(sn[key][r]) for r in p.sensors[key]} for key in p.sensors}, SymReal(z3.Real("k")) if k == "sym" else k, max_dt=MAX_DT_CFG)
             Xo = np.empty((rows, W), dtype=object)
             for r in range(rows):
                 for j in range(W):
@@ -194,12 +222,14 @@ def task(p, k, rows, tier, seed):
                 for r in range(rows):
                     for j in range(W):
                         Xb[r, j] = SymReal(Xv2[r][j])
+                # ... after a configuration field was changed through set_params (a cached filter would go stale)
+                ad.set_params(common_subexpression_elimination=False, max_dt_sec=0.5, innovation_filtering=SymReal(z3.Real("k2")))
                 trb = ad.transform(Xb)
                 handb, _ = by_hand(ad.export_python(), p, [[SymReal(v) for v in row] for row in Xv2], DT)
             return tr, tr2, mh, sc, params0, params1, snap0, hand, trace, trb, handb
 
     cfg = {"gate": "assume", "inverse": "closed", "any_gate": "assume-false", "prune": False, "assume_false_sites": [("transform", "< 0.0"), ("mahalanobis", "< 0.0")]}
-    ass = assumes + ([z3.Real("k") > 0] if k == "sym" else [])
+    ass = assumes + ([z3.Real("k") > 0] if k == "sym" else []) + ([z3.Real("k2") > 0] if k is None else [])
     leaves = explore(harness, assumes=ass, config=cfg, max_paths=64)
     part.leaves(leaves)
     bad = [l for l in leaves if l.status != "ok"]
@@ -249,6 +279,7 @@ def task(p, k, rows, tier, seed):
                         return {"impl": float(got["transform_b"][r, s_]), "spec": float(got["hand_b"][r, s_])}
 
                     allb = dict(allv)
+                    allb["k2"] = z3.Real("k2")
                     allb.update({f"Xb_{r2}_{j}": Xv2[r2][j] for r2 in range(rows) for j in range(W)})
                     prove_equal(part, PID, f"{tag}: second data matrix on the same estimator: transform[{r},{key}] == by-hand NIS", lift(trb[r, s_]), lift(handb[r][s_]), pa, tmo, replay=replay_b, key=f"{key_base}/second-matrix[{r},{key}]", info=dict(info, second=True), all_vars=allb, seeded_envs=seeded_envs_b)
         # score == documented combination of the NIS values (uf_sqrt)
@@ -364,7 +395,7 @@ def replay(path):
         print("REPRODUCED" if bad else "not reproduced")
         return 1 if bad else 0
     try:
-        got = float_run(p, r["inputs"], k, info["rows"])
+        got = float_run(p, r["inputs"], k, info["rows"], int_matrix=info.get("int_matrix", False))
     except pyh.GateRejected as ex:
         print("gate rejected", ex)
         return 0
